@@ -59,6 +59,7 @@ RULES = [
  (r"^C10\|(direct\|)?block3\|43[34]\|changed$", "RC-B3SLASH", None),
  (r"^C03\|field-not-reproduced\|(36)$", "RC-TRAIL", None),
  (r"^C03\|field-not-reproduced\|(5[2-57]B)$", "RC-OPTB", None),
+ (r"^C08\|msg\|MT\d+\|publish-differs\|(5[2-57]B)$", "RC-OPTB", r"C08|msg|*|publish-differs|\1"),
  (r"^C16\|tokenise\|position-stamps-collide\|over-65536-fields$", "RC-POS16", None),
  (r"^C05\|Field\w+\|over-accept\|blank-line$", "RC-LINES", None),
  (r"^C05\|Field\w+\|over-accept\|(control-char|nonascii)$", "RC-XCHARS", None),
@@ -97,6 +98,15 @@ def main():
                 break
         else:
             untriaged.append((sig, detail))
+    # one root cause, five sibling tags: an option-B party field (52B/53B/54B/55B/57B) whose content is empty is
+    # accepted and written back as an empty field, while publish_mt drops it (all its members are null). Whichever
+    # of the five a census happens to hit, all five are the same recorded defect.
+    optb = [k for k in findings if k.startswith("C08|msg|*|publish-differs|5")]
+    if optb:
+        e0 = findings[optb[0]]
+        for t in ("52B", "53B", "54B", "55B", "57B"):
+            k = f"C08|msg|*|publish-differs|{t}"
+            findings.setdefault(k, dict(e0, signature=k))
     path = "/verif/known_findings.json"
     old = json.load(open(path)) if os.path.exists(path) else {}
     out = {
